@@ -4,6 +4,7 @@
 -/
 import OdfModel.Xhtml
 import OdfModel.Xml.AttrLemmas
+import OdfModel.Xml.ContentLemmas
 namespace OdfModel.Xhtml
 open OdfModel OdfModel.Xml OdfModel.Spec
 
@@ -197,5 +198,107 @@ theorem count_lt_render (ts : List Tok) : (render ts).count 60 = (render (ts.map
   induction ts with
   | nil => rfl
   | cons t r ih => simp only [List.flatMap_cons, List.map_cons, List.count_append, ih, count_lt_renderTok t]
+
+/-! ### the style sheet writer (generate_stylesheet after 22e9516) -/
+
+/-- `s.replace(']]>', ']]]]><![CDATA[>')`: what generate_stylesheet applies to every selector line and every property line
+    before it writes it into the `/*<![CDATA[*/ … /*]]>*/` section -/
+def cdataSafe (s : Str) : Str := replCdataEnd s
+
+theorem replCdataEnd_append_lf (a b : Str) : replCdataEnd (a ++ 10 :: b) = replCdataEnd a ++ 10 :: replCdataEnd b := by
+  induction a using replCdataEnd.induct with
+  | case1 r ih =>
+    show replCdataEnd (93 :: 93 :: 62 :: (r ++ 10 :: b)) = _
+    rw [replCdataEnd, replCdataEnd, ih]; simp
+  | case2 c r hnp ih =>
+    have h1 : ∀ r', c :: r ≠ 93 :: 93 :: 62 :: r' := by intro r' h; cases h; exact hnp r' rfl rfl
+    have h2 : ∀ r', c :: (r ++ 10 :: b) ≠ 93 :: 93 :: 62 :: r' := by
+      intro r' h
+      cases r with
+      | nil => simp at h
+      | cons x r1 =>
+        cases r1 with
+        | nil => simp at h
+        | cons y r2 =>
+          simp only [List.cons_append, List.cons.injEq] at h
+          obtain ⟨rfl, rfl, rfl, _⟩ := h
+          exact h1 r2 rfl
+    rw [List.cons_append, replCdataEnd_cons c _ h2, replCdataEnd_cons c r h1, ih]; rfl
+  | case3 => rfl
+
+/-- writing the lines one by one is the same as making the whole text safe: a `]]>` cannot straddle a line end -/
+theorem cdataSafe_lines (ls : List Str) (t : Str) :
+    ls.flatMap (fun l => cdataSafe (l ++ [10])) ++ cdataSafe t = cdataSafe (ls.flatMap (· ++ [10]) ++ t) := by
+  unfold cdataSafe
+  induction ls with
+  | nil => rfl
+  | cons l r ih =>
+    simp only [List.flatMap_cons, List.append_assoc]
+    rw [ih]
+    have := replCdataEnd_append_lf l ([] ++ (r.flatMap (· ++ [10]) ++ t))
+    simp only [List.nil_append] at this
+    rw [List.cons_append, List.nil_append, this]
+    have h0 := replCdataEnd_append_lf l []
+    simp only [replCdataEnd] at h0
+    rw [h0]; simp
+
+theorem not_mem_replCdataEnd_13 (t : Str) (h : 13 ∉ t) : 13 ∉ replCdataEnd t := by
+  induction t using replCdataEnd.induct with
+  | case1 r ih =>
+    rw [replCdataEnd]
+    have : 13 ∉ r := fun hm => h (by simp [hm])
+    simp [CDC, CDO, ih this]
+  | case2 c r hnp ih =>
+    have h1 : ∀ r', c :: r ≠ 93 :: 93 :: 62 :: r' := by intro r' hh; cases hh; exact hnp r' rfl rfl
+    rw [replCdataEnd_cons c r h1]
+    intro hm
+    rcases List.mem_cons.mp hm with hm | hm
+    · exact h (by simp [← hm])
+    · exact ih (fun hh => h (by simp [hh])) hm
+  | case3 => simp [replCdataEnd]
+
+theorem replace1_of_not_mem (c : Cp) (rep s : Str) (h : c ∉ s) : replace1 c rep s = s := by
+  induction s with
+  | nil => rfl
+  | cons x r ih =>
+    have hx : x ≠ c := fun e => h (by simp [e])
+    simp only [replace1, List.flatMap_cons, hx, if_false]
+    have := ih (fun hm => h (by simp [hm]))
+    simp only [replace1] at this
+    rw [this]; rfl
+
+/-- **the style sheet section is read back as written** (the former obligation `cssOK`, now a theorem about the writer):
+    if generate_stylesheet writes the lines `ls` (each through `cdataSafe`, each ending in LF) and then the converter's
+    own `/*]]>`, the reference XML parser — started inside the CDATA section — reads exactly the text of the lines followed
+    by `/*`, and leaves the section at the converter's `]]>`, whatever `]]>`, `]]]>`, `]]>]]>` … the style names and values
+    contain.  (Lines of XML characters without CR — the reference parser's sub-language has no literal CR.) -/
+theorem css_section_read_back (ls : List Str) (acc Y : Str) (fuel : Nat)
+    (hx : ∀ l ∈ ls, ∀ c ∈ l, isXmlChar c = true ∧ c ≠ 13)
+    (hf : (ls.flatMap (fun l => cdataSafe (l ++ [10])) ++ [47, 42] ++ CDC ++ Y).length + 1 ≤ fuel) :
+    ∃ fuel', Y.length + 1 ≤ fuel' ∧
+      parseForest fuel true acc (ls.flatMap (fun l => cdataSafe (l ++ [10])) ++ [47, 42] ++ CDC ++ Y) =
+        parseForest fuel' false (acc ++ (ls.flatMap (· ++ [10]) ++ [47, 42])) Y := by
+  have hsafe : cdataSafe [47, 42] = [47, 42] := by simp [cdataSafe, replCdataEnd]
+  have hcat := cdataSafe_lines ls [47, 42]
+  rw [hsafe] at hcat
+  have hmem : ∀ c ∈ ls.flatMap (· ++ [10]) ++ [47, 42], isXmlChar c = true ∧ c ≠ 13 := by
+    intro c hc
+    rcases List.mem_append.mp hc with hc | hc
+    · obtain ⟨l, hl, hcl⟩ := List.mem_flatMap.mp hc
+      rcases List.mem_append.mp hcl with hcl | hcl
+      · exact hx l hl c hcl
+      · simp at hcl; subst hcl; decide
+    · simp at hc; rcases hc with rfl | rfl <;> decide
+  have h13 : 13 ∉ ls.flatMap (· ++ [10]) ++ [47, 42] := fun hm => (hmem 13 hm).2 rfl
+  have hbody : bodyC (ls.flatMap (· ++ [10]) ++ [47, 42]) = ls.flatMap (fun l => cdataSafe (l ++ [10])) ++ [47, 42] := by
+    unfold bodyC
+    rw [replace1_of_not_mem _ _ _ (not_mem_replCdataEnd_13 _ h13)]
+    exact hcat.symm
+  have hfl : (bodyC (ls.flatMap (· ++ [10]) ++ [47, 42]) ++ 93 :: 93 :: 62 :: Y).length + 1 ≤ fuel := by
+    rw [hbody]; simpa [CDC, List.append_assoc] using hf
+  obtain ⟨f', hf', hp⟩ := pf_bodyC Y (ls.flatMap (· ++ [10]) ++ [47, 42]) acc fuel (fun c hc => (hmem c hc).1) hfl
+  refine ⟨f', hf', ?_⟩
+  rw [hbody] at hp
+  simpa [CDC, List.append_assoc] using hp
 
 end OdfModel.Xhtml
